@@ -628,6 +628,36 @@ func genPredicates(e *emitter, r *rng, g vecs, scale int) {
 			e.emit("eq.zero-vs-single-bit", "field.eq "+fvStr(fv{})+" "+fvStr(f))
 		}
 	}
+	// differences in SEVERAL words that cancel under XOR / addition / OR-by-halves (an equality test that folds the
+	// word differences with the wrong operator accepts these): the same mask in every pair, triple and in all words,
+	// complementary masks, +d / -d pairs
+	{
+		base := g.random(1)
+		for i := 0; i < 10; i++ {
+			for j := i + 1; j < 10; j++ {
+				for _, m := range []uint32{1, 1 << 21, 0x3fffff, uint32(1 + r.intn(0x3ffffe))} {
+					b := base
+					b[i] ^= m
+					b[j] ^= m
+					e.emit("eq.two-words-same-mask", "field.eq "+fvStr(base)+" "+fvStr(b))
+					c := base
+					c[i] += m & 0xffff
+					c[j] -= m & 0xffff
+					e.emit("eq.two-words-plus-minus", "field.eq "+fvStr(base)+" "+fvStr(c))
+				}
+			}
+		}
+		var z fv
+		for _, idx := range [][]int{{0, 2}, {1, 3}, {0, 2, 4, 6}, {1, 3, 5, 7, 9}, {0, 1, 2, 3, 4, 5, 6, 7, 8, 9}, {0, 9}, {4, 5}} {
+			b := z
+			for _, i := range idx {
+				b[i] = 1
+			}
+			e.emit("eq.cancelling-vs-zero", "field.eq "+fvStr(z)+" "+fvStr(b))
+			e.emit("eq.cancelling-vs-zero", "field.eq "+fvStr(b)+" "+fvStr(z))
+			e.emit("iszero.cancelling", "field.iszero "+fvStr(b))
+		}
+	}
 	e.emit("iszero.zero", "field.iszero "+fvStr(fv{}))
 	e.emit("iszero.P-denormalised", "field.iszero "+fvStr(wordsOf(fldP)))
 	e.emit("eq.zero-vs-P-denormalised", "field.eq "+fvStr(fv{})+" "+fvStr(wordsOf(fldP)))
